@@ -163,7 +163,7 @@ def run_check(pid, tier, seed, t0):
             for f in b.get("failures", []):
                 bfail.append((b, f))
     # ------------------------------------------------------------ violations
-    rdir = os.path.join(VERIF, "replays", pid)
+    rdir = os.path.join(os.environ.get("PYVC_REPLAY_DIR", os.path.join(VERIF, "replays")), pid)
     os.makedirs(rdir, exist_ok=True)
     for old in os.listdir(rdir):          # replay files of earlier runs
         try:
@@ -191,7 +191,7 @@ def run_check(pid, tier, seed, t0):
         if pt:
             rep["patch_time"] = pt
         fname = re.sub(r"[^A-Za-z0-9_.\[\]-]", "_", "%s__%s" % (x["name"], t["mode"]))[:150]
-        path = os.path.join(VERIF, "replays", pid, fname + ".json")
+        path = os.path.join(rdir, fname + ".json")
         reproduced, rout = None, None
         if t["kind"] == "verify" and rep["contract"] is not None:
             json.dump(rep, open(path, "w"), indent=1, default=str)
@@ -221,7 +221,7 @@ def run_check(pid, tier, seed, t0):
             pid, path, x["name"], t["mode"], suffix))
     for c in custom_fail:
         fname = re.sub(r"[^A-Za-z0-9_.\[\]-]", "_", c["name"])[:150]
-        path = os.path.join(VERIF, "replays", pid, fname + ".json")
+        path = os.path.join(rdir, fname + ".json")
         rep = {"property": pid, "obligation": c["name"], "kind": "static-obligation",
                "solver_output": c["detail"], "replay": c.get("replay"),
                "reproduced_natively": bool(c.get("reproduced"))}
@@ -241,7 +241,7 @@ def run_check(pid, tier, seed, t0):
     for (b, f) in bfail:
         fname = re.sub(r"[^A-Za-z0-9_.-]", "_", "bounded__%s__%s" % (
             b["name"], f.get("id", len(lines))))[:150]
-        path = os.path.join(VERIF, "replays", pid, fname + ".json")
+        path = os.path.join(rdir, fname + ".json")
         rep = {"property": pid, "kind": "bounded", "check": b["name"],
                "input": f.get("input"), "observed": f.get("observed"),
                "expected": f.get("expected"), "replay_call": f.get("replay_call")}
@@ -309,8 +309,9 @@ def run_check(pid, tier, seed, t0):
         "assumptions": ASSUMPTIONS + list(getattr(prop, "ASSUMPTIONS", [])),
         "wall_s": round(wall, 2), "violations": nviol,
     }
-    os.makedirs(os.path.join(VERIF, "evidence"), exist_ok=True)
-    json.dump(ev, open(os.path.join(VERIF, "evidence", pid + ".json"), "w"), indent=1)
+    evdir = os.environ.get("PYVC_EVIDENCE_DIR", os.path.join(VERIF, "evidence"))
+    os.makedirs(evdir, exist_ok=True)
+    json.dump(ev, open(os.path.join(evdir, pid + ".json"), "w"), indent=1)
     if os.environ.get("PYVC_TIMING"):
         slow = sorted(results, key=lambda r: -r.get("wall_s", 0))[:8]
         for r in slow:
